@@ -647,3 +647,31 @@ Proof.
   - intros [Hd Hu]. split; [eapply decode_wf; eassumption|symmetry; apply decode_sound; exact Hd].
   - intros [Hw ->]. split; [apply roundtrip; exact Hw|apply wf_inv in Hw; tauto].
 Qed.
+
+(* ---------- the End-of-RIB shortcut ---------- *)
+(* unguarded, the shortcut drops routes: 10.0.0.0/8 next to an empty MP_UNREACH_NLRI for IPv6 unicast *)
+Definition upd_eorlike : update := MkUpd [] [AGen 64 1 [0]; AUnreach 128 (MpPfx F6U [])] [MkPfx 8 [10]].
+Lemma lax_eor_drops :
+  wf upd_eorlike = true /\ lax_eor upd_eorlike = true /\ is_eor upd_eorlike = false
+  /\ events upd_eorlike = [EvA F4U (MkPfx 8 [10]) (u_attrs upd_eorlike)].
+Proof. vm_compute. repeat split; reflexivity. Qed.
+
+Lemma first_reach_none l : existsb is_reach l = false -> first_reach l = None.
+Proof.
+  induction l as [|a l IH]; [reflexivity|]. destruct a; cbn [existsb is_reach orb first_reach]; try discriminate; exact IH.
+Qed.
+
+(* guarded (the repair), it drops nothing *)
+Lemma guarded_eor_drops_nothing u :
+  carries_routes u = false -> lax_eor u = true -> events u = [].
+Proof.
+  unfold carries_routes. rewrite !orb_false_iff, !negb_false_iff. intros [[Hw Hn] Hr] He.
+  destruct u as [wd attrs nlri]. cbn [u_wd u_nlri u_attrs] in *.
+  destruct wd; [|discriminate]. destruct nlri; [|discriminate].
+  unfold events. cbn [u_wd u_nlri u_attrs map]. rewrite first_reach_none by exact Hr.
+  cbn [opt_routes app map].
+  destruct attrs as [|a l]; [reflexivity|].
+  unfold lax_eor, no_unreach_routes in He. cbn [u_attrs] in He.
+  destruct (first_unreach (a :: l)) as [n|]; [|discriminate].
+  cbn [opt_routes]. destruct (mp_routes n); [reflexivity|discriminate].
+Qed.
